@@ -871,7 +871,7 @@ Proof.
       * intros d E. inversion E; subst. constructor.
       * intros i' o' E.
         assert (E' : i' = i /\ o' = o).
-        { destruct i, o; try (inversion E; auto). destruct action; inversion E; auto. }
+        { destruct i, o; inversion E; auto. }
         destruct E'; subst. split; intros x Hx; subst; [apply II | apply OO]; reflexivity.
 Qed.
 
